@@ -426,4 +426,93 @@ theorem fixed_listVoters_complete {fuel : Nat} {w : Cw3Fixed.World} (hr : Cw3Fix
     fetchLoop (fun cur => Cw3Fixed.listVoters w.ms cur limit) (·.1) none n = sortedEntries strLt w.ms.voters :=
   fixed_listVoters_loop (Cw3Fixed.reachable_inv hr).votersNodup limit hl hf
 
+/-! ## cw3-flex-multisig: `ListProposals`, `ReverseProposals`, `ListVotes`, `ListVoters` -/
+
+/-- (a) `ListProposals`: page bound, and the exact rejection condition (a listed proposal without status). -/
+theorem flex_listProposals_page_len (s : Cw3Flex.State) (blk : Block) (after limit : Option Nat) :
+    (okItems (Cw3Flex.listProposals s blk after limit)).length ≤ effLimit limit ∧
+    ((Cw3Flex.listProposals s blk after limit).isOk = true ↔
+      ∀ x ∈ page natLt (sortedEntries natLt s.core.proposals) after limit, ∃ st, x.2.currentStatus blk = .ok st) :=
+  core_listProposals_page_len s.core blk after limit
+
+/-- (a) `ReverseProposals`: page bound and rejection condition. -/
+theorem flex_reverseProposals_page_len (s : Cw3Flex.State) (blk : Block) (before limit : Option Nat) :
+    (okItems (Cw3Flex.reverseProposals s blk before limit)).length ≤ effLimit limit ∧
+    ((Cw3Flex.reverseProposals s blk before limit).isOk = true ↔
+      ∀ x ∈ Cw3Core.pageDesc natLt (sortedEntries natLt s.core.proposals) before limit,
+        ∃ st, x.2.currentStatus blk = .ok st) :=
+  core_reverseProposals_page_len s.core blk before limit
+
+/-- (b) `ListProposals` of cw3-flex is complete in every reachable world at every query block at which every
+stored proposal has a status (`StatusTotal`; see the header: unlike cw3-fixed this is not an invariant of the
+flex model because of D3). -/
+theorem flex_listProposals_complete {ext : Cw3Flex.Ext} {fuel : Nat} {w : Cw3Flex.World}
+    (hr : Cw3Flex.Reachable ext fuel w) (blk : Block) (hv : StatusTotal w.flex.core blk)
+    (limit : Option Nat) (hl : limit ≠ some 0) {n : Nat} (hf : w.flex.core.proposals.length + 1 ≤ n) :
+    Cw3Core.viewAll blk (sortedEntries natLt w.flex.core.proposals)
+      = .ok (fetchLoop (fun cur => okItems (Cw3Flex.listProposals w.flex blk cur limit)) (·.id) none n) :=
+  core_listProposals_loop (Cw3Flex.reachable_nodup hr) hv limit hl hf
+
+/-- (b) `ReverseProposals` of cw3-flex, same hypothesis: all proposals, descending by id. -/
+theorem flex_reverseProposals_complete {ext : Cw3Flex.Ext} {fuel : Nat} {w : Cw3Flex.World}
+    (hr : Cw3Flex.Reachable ext fuel w) (blk : Block) (hv : StatusTotal w.flex.core blk)
+    (limit : Option Nat) (hl : limit ≠ some 0) {n : Nat} (hf : w.flex.core.proposals.length + 1 ≤ n) :
+    Cw3Core.viewAll blk (sortedEntries natLt w.flex.core.proposals).reverse
+      = .ok (fetchLoop (fun cur => okItems (Cw3Flex.reverseProposals w.flex blk cur limit)) (·.id) none n) :=
+  core_reverseProposals_loop (Cw3Flex.reachable_nodup hr) hv limit hl hf
+
+/-- cw3-flex validates the `ListVotes` cursor (`maybe_addr`), unlike cw3-fixed. -/
+theorem flex_listVotes_eq (s : Cw3Flex.State) (id : Nat) (after : Option Cw3Core.AddrArg) (limit : Option Nat) :
+    Cw3Flex.listVotes s id after limit =
+      if after.all (·.valid) = true then
+        .ok (page strLt (sortedEntries strLt (Cw3Core.ballotsOf s.core id)) (after.map (·.text)) limit)
+      else .error "addr" := by
+  cases after with
+  | none => rfl
+  | some a => cases hv : a.valid <;>
+      simp [Cw3Flex.listVotes, Cw3Core.listVotes, hv, check, bind, Except.bind, pure, Except.pure]
+
+/-- (a) `ListVotes`: page bound; rejected exactly when the cursor does not validate. -/
+theorem flex_listVotes_page_len (s : Cw3Flex.State) (id : Nat) (after : Option Cw3Core.AddrArg) (limit : Option Nat) :
+    (okItems (Cw3Flex.listVotes s id after limit)).length ≤ effLimit limit ∧
+    (Cw3Flex.listVotes s id after limit).isOk = after.all (·.valid) := by
+  rw [flex_listVotes_eq]
+  refine ⟨okItems_ite_len _ _ _ _ (page_length_le _ _ _ _), ?_⟩
+  cases after.all (·.valid) <;> rfl
+
+/-- (b) `ListVotes` of cw3-flex is complete in every reachable world, for every proposal id. -/
+theorem flex_listVotes_complete {ext : Cw3Flex.Ext} {fuel : Nat} {w : Cw3Flex.World}
+    (hr : Cw3Flex.Reachable ext fuel w) (id : Nat) (limit : Option Nat) (hl : limit ≠ some 0) {n : Nat}
+    (hf : (Cw3Core.ballotsOf w.flex.core id).length + 1 ≤ n) :
+    fetchLoop (fun cur => okItems (Cw3Flex.listVotes w.flex id (cur.map (⟨true, ·⟩)) limit)) (·.1) none n
+      = sortedEntries strLt (Cw3Core.ballotsOf w.flex.core id) :=
+  listing_complete_id strictTotal_strLt ((Cw3Flex.reachable_inv hr).wf.nodup id) hl
+    (fun c => by cases c <;> simp [flex_listVotes_eq]) hf
+
+/-- (a) `ListVoters` of cw3-flex is the group's `ListMembers`: page bound; rejected exactly when the cursor
+does not validate. -/
+theorem flex_listVoters_page_len (g : Cw4Group.State) (after : Option Cw4Group.AddrArg) (limit : Option Nat) :
+    (okItems (Cw3Flex.listVoters g after limit)).length ≤ effLimit limit ∧
+    (Cw3Flex.listVoters g after limit).isOk = after.all (·.valid) :=
+  group_listMembers_page_len g after limit
+
+/-- (b) `ListVoters` of cw3-flex is complete in every world whose group contract was instantiated (any accepted
+`Cw4Group.instantiate`, any history `gops` of group calls before the multisig is set up) and then went through
+any history `ops` of the world — transactions on the multisig, on the group (also through executed proposals
+that call `UpdateMembers`) and on the token.  Holds for any multisig state `s`. -/
+theorem flex_listVoters_complete {gm : Cw4Group.InstMsg} {h0 : Nat} {g0 : Cw4Group.State}
+    (hg : Cw4Group.instantiate gm h0 = .ok g0) (gops : List Cw4Group.Op) (s : Cw3Flex.State) (t : Cw20.State)
+    (bank : AMap (Addr × String) Nat) (self groupAddr tokenAddr : Addr) (hh : Nat) (ext : Cw3Flex.Ext) (fuel : Nat)
+    (ops : List Cw3Flex.Op) (limit : Option Nat) (hl : limit ≠ some 0) {n : Nat}
+    (hf : (Cw3Flex.run ext fuel (Cw3Flex.World.init s (Cw4Group.run g0 gops) t bank self groupAddr tokenAddr hh)
+      ops).group.members.cur.length + 1 ≤ n) :
+    fetchLoop (fun cur => okItems (Cw3Flex.listVoters
+        (Cw3Flex.run ext fuel (Cw3Flex.World.init s (Cw4Group.run g0 gops) t bank self groupAddr tokenAddr hh) ops).group
+        (cur.map (⟨true, ·⟩)) limit)) (·.1) none n
+      = sortedEntries strLt
+        (Cw3Flex.run ext fuel (Cw3Flex.World.init s (Cw4Group.run g0 gops) t bank self groupAddr tokenAddr hh)
+          ops).group.members.cur :=
+  group_listMembers_loop
+    (Cw3Flex.run_group_nodup ext fuel ops _ (Cw4Group.run_nodup gops (Cw4Group.instantiate_nodup hg))) limit hl hf
+
 end CwPlus.Props.C20Listings
